@@ -44,18 +44,24 @@ func checkC12(c *Ctx) error {
 	// the same obligations one level up: names and done-channel names requested the way the
 	// generator requests them (InjectorParam.Name / ChannelName), whatever allocator entry
 	// points those use
-	pk := maxK - 1
+	// (each awaited value contributes two outputs, so histories are one shorter than above and,
+	// in the thorough tier, names stay at length <= 5: the queries of length-8 names over
+	// 6 outputs took up to a minute each)
+	pk, pLen := maxK-1, maxLen
+	if pLen > 5 {
+		pLen = 5
+	}
 	if v := os.Getenv("VERIF_PARAMK"); v != "" {
 		fmt.Sscan(v, &pk)
 	}
-	pt := runVarPoolHistories(c, k, fn, pk, maxLen, nil, "C12-param", "verifHarnessParamNames")
+	pt := runVarPoolHistories(c, k, fn, pk, pLen, nil, "C12-param", "verifHarnessParamNames")
 	total.obligations += pt.obligations
 	total.holds += pt.holds
 	total.violated += pt.violated
 	total.unknown += pt.unknown
 	total.paths += pt.paths
 	total.reached += pt.reached
-	c.Coverage["param_level_histories"] = map[string]any{"length": pk, "paths": pt.paths, "obligations": pt.obligations}
+	c.Coverage["param_level_histories"] = map[string]any{"length": pk, "name_length": pLen, "paths": pt.paths, "obligations": pt.obligations}
 	// Translator validation: seeded concrete histories through the interpreter
 	// and through the native build must give identical outputs.
 	if err := validateVarPoolTranslator(c, k); err != nil {
